@@ -896,12 +896,19 @@ pub fn run_case<W: World>(w: &mut W, g: &Group, sp: usize, st: &mut Stats) -> Ve
         }
     }
 
-    // symlink over the existing link
-    for (t2, k2) in [(ZF, TK::File), (ZD, TK::Dir), (ZM, TK::Missing)] {
+    // symlink over the existing link (second round: the link's own path in a spelling that is not clean - the
+    // refusal, or the re-targeting, must not depend on how the existing link is spelled)
+    let unclean_l = {
+        let cut = abs_l.rfind('/').unwrap_or(0);
+        // (a spelling whose std::path components differ from the clean path's: '.' and doubled separators vanish in
+        // component-wise comparison, a 'name/..' detour does not)
+        format!("{}/zz/../{}", &abs_l[..cut], &abs_l[cut + 1..])
+    };
+    for (t2, k2, l_arg) in [(ZF, TK::File, &abs_l), (ZD, TK::Dir, &abs_l), (ZM, TK::Missing, &abs_l), (ZF, TK::File, &unclean_l), (ZD, TK::Dir, &unclean_l), (ZM, TK::Missing, &unclean_l)] {
         fresh(w, &mut r);
         let abs_t2 = reroot(&prefix, t2);
         let op = "symlink over existing link";
-        if let Some(res) = r.call(op, || w.fs().symlink(&abs_l, &abs_t2)) {
+        if let Some(res) = r.call(op, || w.fs().symlink(l_arg, &abs_t2)) {
             let obs2 = w.observe();
             match res {
                 Err(_) => {
@@ -1164,7 +1171,7 @@ pub fn run(ctx: &Ctx) -> i32 {
         ("evaluations", J::i(states)),
         ("distinct_nontrivial", J::i(nontriv.len() as i64)),
         ("rule", J::s(format!(
-            "positions = all {} paths of depth <= {} over names {{a,b}}; targets = positions + root; every feasible (L, T, kind at creation) configuration ({} configurations over {} (L,T) pairs) x 7 spellings of the target (the last one writes the final component as a variable reference) = {} states per world, 3 worlds (memfs@/, stdfs@sandbox, memfs@sandbox). Each state: symlink + all queries of the statement + readlink*/entry on every non-link; then up to 15 follow-up transitions each from a fresh copy of the state (chmod of the directory holding the link, recursive and without follow, which must leave a target outside that directory alone; remove, chmod x2, chown x2 without follow, the same chown x2 after the target itself was given the requested owner, move_p of the link and of each of its ancestor directories to a new name with the readlink/readlink_abs law checked where the link is found afterwards, symlink over the link x3). distinct_nontrivial = (L,T) pairs whose relative navigation from dir(L) to T contains '..' or more than one component or is empty (target == dir(link)), i.e. the link is not next to its target.",
+            "positions = all {} paths of depth <= {} over names {{a,b}}; targets = positions + root; every feasible (L, T, kind at creation) configuration ({} configurations over {} (L,T) pairs) x 7 spellings of the target (the last one writes the final component as a variable reference) = {} states per world, 3 worlds (memfs@/, stdfs@sandbox, memfs@sandbox). Each state: symlink + all queries of the statement + readlink*/entry on every non-link; then up to 15 follow-up transitions each from a fresh copy of the state (chmod of the directory holding the link, recursive and without follow, which must leave a target outside that directory alone; remove, chmod x2, chown x2 without follow, the same chown x2 after the target itself was given the requested owner, move_p of the link and of each of its ancestor directories to a new name with the readlink/readlink_abs law checked where the link is found afterwards, symlink over the link x6, in a clean and an unclean spelling of the link's path). distinct_nontrivial = (L,T) pairs whose relative navigation from dir(L) to T contains '..' or more than one component or is empty (target == dir(link)), i.e. the link is not next to its target.",
             tree::namespace(&NAMES, depth).len(), depth, n, pairs.len(), expect_states
         ))),
         ("per_world", J::obj([
